@@ -119,7 +119,7 @@ MANIFEST_META = {
     },
     'C07': {
         'text': 'Verus proves that polynomials::division returns, for every block content and every generator handed to it in exponent form, the state of schoolbook long division of data(x)*x^ec by g(x) over GF(2^8)/0x11D (multiplication defined by shift-and-add, not by tables), including the skip of zero leading coefficients; that the crate LOG/ANTILOG tables are alpha^i / the discrete logarithm (each of the 512 entries checked against the recursive definition); that the log/antilog product equals field multiplication (bit-vector lemma + induction); and that get_polynomial(v,l) is, coefficient by coefficient, the product polynomial (x-alpha^0)...(x-alpha^(ec-1)) of exactly the degree ISO Table 9 prescribes for all 160 (version, level) pairs.',
-        'note': 'The remainder is specified operationally (long division); uniqueness of the remainder / the quotient identity data*x^ec = q*g + r is a mathematical fact about the model that is not mechanised. Table 9 degrees come from the qrcode-0.12 transcription.',
+        'note': 'The code is proved equal to the long-division state (operational), and that this IS the remainder is MECHANISED in spec/iso_uniq.vrs: a polynomial of degree < m vanishing at m distinct points is zero (factor theorem by synthetic division, no zero divisors, alpha^0..alpha^254 pairwise distinct), hence the emitted codewords are the only ec coefficients that make the block vanish at alpha^0..alpha^(ec-1) (lemma_remainder_unique), and for ANY quotient q and any r of ec coefficients with data*x^ec == q*g + r (poly_mul, evaluation is multiplicative) r is the emitted sequence (lemma_remainder_is_the_remainder; non-vacuity witness lemma_remainder_witness). Not mechanised: existence of such a quotient for every data (the textbook division theorem; the emitted sequence is characterised without it). Table 9 degrees come from the qrcode-0.12 transcription.',
     },
     'C02': {
         'text': 'Verus proves that ecc_to_groups, data_codewords, max_bytes, missing_bits equal ISO Table 9 / the geometry formula for all 160 cells (with the consistency lemma blocks x sizes + blocks x ec = total), and that polynomials::structure lays out, for every data content, data codeword p of block b at the ISO interleaved position, EC codeword j of block b (the proved division remainder of that block) at dc + j*blocks + b, and zeros beyond the total (hence zero remainder bits before masking); all index arithmetic is proved in bounds; and, as a theorem about the model, that every block of that sequence has all-zero syndromes at alpha^0..alpha^(ec-1).',
